@@ -140,10 +140,68 @@ func main() {
 		return
 	}
 	exit := 0
+	var norm *Prog
+	var normDone []string
+	normTried := false
 	for _, id := range ids {
 		rep := NewReport(id, *tier, seed)
 		c := NewCtx(p, rep, *tier)
 		code := runProp(c, props[id])
+		// Programs that factor code through higher-order helpers are also judged in their equivalent first-order
+		// form (see specialise.go). When the program as written raises something, the normalised program's verdict
+		// stands if it is clean (the report was a recognition failure). When the program as written is clean, definite
+		// violations found in the normalised form still count: a slip hidden behind a function-valued parameter is
+		// invisible to rules that read direct calls.
+		if !normTried {
+			normTried = true
+			if files, done := SpecialiseHigherOrder(*repo, overlay); len(done) > 0 {
+				merged := map[string][]byte{}
+				for k, v := range overlay {
+					merged[k] = v
+				}
+				for k, v := range files {
+					merged[k] = v
+				}
+				if np, err := Load(*repo, merged, "", true); err == nil {
+					norm, normDone = np, done
+				} else if os.Getenv("FCHECK_DEBUG") != "" {
+					fmt.Println("normalisation discarded:", err)
+				}
+			}
+		}
+		if norm != nil {
+			rep2 := NewReport(id, *tier, seed)
+			c2 := NewCtx(norm, rep2, *tier)
+			runProp(c2, props[id])
+			rep2.Analysed["normalised_higher_order_helpers"] = normDone
+			if os.Getenv("FCHECK_DEBUG") != "" {
+				for _, o := range rep2.Obs {
+					if o.Verdict != OK {
+						fmt.Printf("normalised program: %s %s: %s: %s: %s\n", o.Verdict, o.Pos, o.Rule, o.Construct, o.Reason)
+					}
+				}
+				if d := os.Getenv("FCHECK_DUMP_NORMALISED"); d != "" {
+					if files, _ := SpecialiseHigherOrder(*repo, overlay); files != nil {
+						for k, v := range files {
+							os.WriteFile(filepath.Join(d, filepath.Base(k)), v, 0o644)
+						}
+					}
+				}
+			}
+			if rep.failing(vdir) > 0 {
+				if rep2.failing(vdir) == 0 {
+					rep2.Add(id+".normalisation", "higher-order helpers specialised", "-", OK, "")
+					rep, c = rep2, c2
+				}
+			} else if rep2.definiteViolations(vdir) > 0 {
+				// keep the clean report's obligations and add the definite violations of the normalised form
+				for _, o := range rep2.Obs {
+					if o.Verdict == Violation && o.Construct != "VACUOUS" {
+						rep.Add(o.Rule, o.Construct+" [first-order form]", o.Pos, Violation, o.Reason)
+					}
+				}
+			}
+		}
 		if code == 0 && *tier == "thorough" && *mutant == "" && !*noEvidence {
 			// architecture coverage: no file may be gated by GOARCH
 			if _, err := Load(*repo, nil, "386", false); err != nil {
